@@ -1727,6 +1727,7 @@ func (ctx Ctx) refExpr(s ast.Expr) coq.Expr {
 		} else {
 			structExpr = ctx.refExpr(s.X)
 		}
+		ctx.dep.addDep(info.name)
 		return coq.NewCallExpr(coq.GallinaIdent("struct.fieldRef"), coq.StructDesc(info.name),
 			coq.GallinaString(fieldName), structExpr)
 	// TODO: should move support for slice indexing here as well
@@ -1811,6 +1812,7 @@ func (ctx Ctx) assignFromTo(s ast.Node,
 		}
 		if ok {
 			fieldName := lhs.Sel.Name
+			ctx.dep.addDep(info.name)
 			return coq.NewAnon(coq.NewCallExpr(coq.GallinaIdent("struct.storeF"),
 				coq.StructDesc(info.name),
 				coq.GallinaString(fieldName),
